@@ -78,18 +78,20 @@ def irq_obligations(prog, power, timers, V, O):
     inv = z3.Or(inint == 1, (isr & 0x0F) == 0, pend == 1) if flagged else z3.BoolVal(True)
     if prog == "nop" and power == "running" and not timers:
         checks.append(("unmasked-pending-request-is-taken-promptly", z3.And(inv, inint == 0, (imr & 0x80) != 0, (imr & isr & 0x0F) != 0, z3.Not(taken))))
-    if flagged and prog in ("nop", "wr_imr") and not timers:
-        checks.append(("pending-request-is-not-lost", z3.And(inv, inint1 == 0, (isr1 & 0x0F) != 0, pend1 == 0)))
+    if flagged and prog in ("nop", "wr_imr", "reti") and not timers:
+        lost = z3.And(inv, inint1 == 0, (isr1 & 0x0F) != 0, pend1 == 0)
+        checks.append(("pending-request-is-not-lost|flag-was-set", z3.And(lost, pend == 1)))
+        checks.append(("pending-request-is-not-lost|flag-was-clear", z3.And(lost, pend == 0)))
     # O4 not taken: nothing is pushed
     if prog in ("nop",) and power == "running":
         checks.append(("not-taken-leaves-stack-and-mask", z3.And(z3.Not(taken), z3.Or(s1 != S, imr1 != imr, (f1 & 3) != (F & 3), z3.Or(*[mem1[i] != st[i] for i in range(10)])))))
         checks.append(("not-taken-executes-the-instruction", z3.And(z3.Not(taken), z3.Or(pc1 != PC0 + plen, z3.Not(executed)))))
     # O5 halted / off: nothing executes; resumes exactly when a status bit is pending
     if power in ("halted", "off") and not timers:
-        checks.append(("halted-cpu-executes-nothing", z3.And(executed, (isr & 0x0F) == 0, latch == 0)))
-        checks.append(("halted-cpu-stays-halted-without-pending-status", z3.And((isr & 0x0F) == 0, latch == 0, halted1 == 0)))
+        checks.append(("halted-cpu-executes-nothing", z3.And(executed, (isr & 0x7F) == 0, latch == 0)))
+        checks.append(("halted-cpu-stays-halted-without-pending-status", z3.And((isr & 0x7F) == 0, latch == 0, halted1 == 0)))
         if power == "halted":
-            checks.append(("halted-cpu-resumes-when-a-status-bit-is-pending", z3.And((isr & 0x0F) != 0, inint == 0, halted1 == 1)))
+            checks.append(("halted-cpu-resumes-when-a-status-bit-is-pending", z3.And((isr & 0x7F) != 0, inint == 0, halted1 == 1)))
     if power == "off" and timers:
         # while it stays off (no status bit pending to wake it)
         checks.append(("powered-off-cpu-stops-both-timers", z3.And((isr & 0x0F) == 0, z3.Or(o(17, 8) != mt["next_mti"], o(18, 8) != mt["next_sti"], ((isr1 ^ isr) & 0x03) != 0))))
@@ -135,7 +137,8 @@ def run_rust_case(item):
         ins[700 + i] = b if isinstance(b, int) else z3.ZeroExt(24, b)
     # only the modelled sources: IMR bits 4-6 and ISR bits 4-7 stay clear (every changed bit of these registers costs the
     # runtime's bit-watch bookkeeping a three-way fork)
-    assumptions = [(imr & 0x70) == 0, (isr & 0xF0) == 0, (imm & (0x70 if prog == "wr_imr" else 0xF0)) == 0]
+    isr_mask = 0x80 if power == "halted" else 0xF0  # a halted CPU is woken by any of the seven status bits
+    assumptions = [(imr & 0x70) == 0, (isr & isr_mask) == 0, (imm & (0x70 if prog == "wr_imr" else 0xF0)) == 0]
     if prog in ("wr_imr", "wr_isr"):
         # register-writing programs: master enable + the MTI source only (old and new value: two bits each)
         assumptions += [(imr & 0x7E) == 0, (isr & 0xFE) == 0, (imm & (0x7E if prog == "wr_imr" else 0xFE)) == 0]
@@ -261,7 +264,7 @@ def run_python_case(item):
         imr, isr = SymInt.var("imr", 8), SymInt.var("isr", 8)
         eng = core.engine()
         eng.assume((imr & 0x70) == 0)
-        eng.assume((isr & 0xF0) == 0)
+        eng.assume((isr & (0x80 if power == "halted" else 0xF0)) == 0)
         eng.assume((imm & (0x70 if prog == "wr_imr" else 0xF0)) == 0)
         if prog in ("wr_imr", "wr_isr"):
             eng.assume((imr & 0x7E) == 0)
@@ -391,8 +394,9 @@ def main(tier):
     build.ensure_built()
     build.image()
     cs = cases(tier)
+    rs_cs = [c for c in cs if not (tier == "quick" and c[0] == "off")]  # the OFF program repeats the HALT program's paths: thorough only
     py_cs = [c for c in cs if c[1] != "off"] + ([("nop", "halted", True), ("nop", "running", True)] if tier == "quick" else [])  # no separate powered-off state in Python
-    results = common.pool_map(run_rust_case, [(tier, c) for c in cs]) + common.pool_map(run_python_case, [(tier, c) for c in py_cs])
+    results = common.pool_map(run_rust_case, [(tier, c) for c in rs_cs]) + common.pool_map(run_python_case, [(tier, c) for c in py_cs])
     tot = {k: 0 for k in ("paths", "obligations", "discharged", "unknown")}
     solver_time = 0.0
     samples, inconcl, cex = [], [], {}
@@ -419,7 +423,7 @@ def main(tier):
     code = rep.finish()
     wall = time.time() - t0
     coverage = {
-        "obligations": tot["obligations"], "discharged": tot["discharged"], "evaluations": tot["paths"], "distinct_nontrivial": len(cs) + len(py_cs),
+        "obligations": tot["obligations"], "discharged": tot["discharged"], "evaluations": tot["paths"], "distinct_nontrivial": len(rs_cs) + len(py_cs),
         "rule": "one CoreRuntime::step per (program at PC, power state, timers on/off) from an arbitrary interrupt-controller state",
         "samples": samples[:8], "checker_cmd": "./check C12 --tier " + tier, "trusted_base": ["z3 5.1.0", "engines/rsym", "irq_spec in checks/irq_check.py"],
         "explanation": "Step relations decided by z3 for all IMR/ISR values, pending/in-interrupt/key-latch flags, F, the bytes around S, the vector and written values: an interrupt is taken only with master enable and an unmasked pending source and never while powered off; taking pushes exactly IMR, F and the resume PC, clears only the master enable, continues at the vector; an unmasked pending request is taken in the very next step; without delivery nothing is pushed; a halted or powered-off CPU executes nothing and leaves that state exactly when a status bit is pending; a powered-off CPU does not advance the timers; RETI restores IMR, F, PC and S from the frame.",
@@ -433,5 +437,5 @@ def main(tier):
     }
     assumptions = ["external memory arbitrary (symbolic 1 MiB array); internal memory zero except IMR/ISR", "kb_irq_enabled = true (default)", "perfetto tracer absent"]
     common.write_evidence("C12", tier, "other", coverage, assumptions, wall, len(rep.violations))
-    print(f"C12 {tier}: cases={len(cs) + len(py_cs)} paths={tot['paths']} obligations={tot['obligations']} discharged={tot['discharged']} cex={len(cex)} solver={solver_time:.1f}s wall={wall:.1f}s")
+    print(f"C12 {tier}: cases={len(rs_cs) + len(py_cs)} paths={tot['paths']} obligations={tot['obligations']} discharged={tot['discharged']} cex={len(cex)} solver={solver_time:.1f}s wall={wall:.1f}s")
     return code
